@@ -47,6 +47,37 @@ CHECKS = {
             "complex input refused.", "N in {0..4} quick, +{6,8,12} thorough; ranks 1..3; float32 accuracy outside the claim."),
 }
 
+CHECKS.update({
+    "C02": ("Bounded symbolic model checking of the real channel-label code: labels, band edges and alignment normalisation against the band "
+            "model for nchan 1..6 (10 thorough), all alignments and unit combinations with symbolic center_freq/chan_bw; frequency slices with "
+            "symbolic raw bounds (any integers or absent; only the normalised pair is forked), nested slices and slices combined with a time "
+            "slice return exactly the selected labels and samples; empty ranges raise; Stokes component access keeps labels, times and metadata.",
+            "Exact real arithmetic (float rounding of labels at extreme center_freq/chan_bw outside the claim); signal length symbolic (T-arrays)."),
+    "C05": ("Bounded symbolic model checking of the real coherent dedispersion in three parts: (a) the chirp's exponent (recorded at np.exp) "
+            "equals -2*pi*K*DM*f_k*(1/f_ref-1/f_k)^2 on every bin within 1e-11 relative (nonlinear real arithmetic, DM eliminated by "
+            "linearity), for N in {1,2,3,4} and several unit combinations; (b) every channel's chirp is that function called with "
+            "(K*DM, N, dt, channel label, reference); (c) for every unit-modulus chirp the result is IDFT(DFT(z)*chirp) cropped by the "
+            "ceilings of free band-edge delays of either sign/order, with start_time advanced by the front crop; DM/-DM exponents cancel; "
+            "the delay of any in-band frequency lies between the band-edge delays.",
+            "Concrete sample spacing per unit; N in {2,4} (+{3,8} thorough) for the filtering units; complex64 accuracy of the chirp over many "
+            "decades of DM is outside the claim (exact arithmetic); DM.sample_delay stubbed in (c), its law is C06."),
+    "C06": ("Symbolic execution of the real time_delay/sample_delay on symbolic DM, frequencies and sample rate in mixed units: law, antisymmetry, "
+            "additivity and sample_delay = delay*rate hold within 1e-12 relative (nonlinear real arithmetic); incoherent_dedispersion on signals "
+            "of symbolic length with free monotone channel delays: every output sample comes from the input sample round(delay_i) later "
+            "(round-half-even), sources in range, length, start_time, type/labels/trailing dims, and the delays are requested at the channel "
+            "labels / reference frequency / sample rate.", "nchan 1..3 (4 thorough); float rounding of delays near .5 outside the claim; "
+            "channel delays assumed monotone (proved for the real time_delay in the lemma units for bands above 0 Hz)."),
+    "C14": ("Symbolic execution of 26 public operations on signals backed by writable NumPy object buffers (contiguous, strided view of a larger "
+            "buffer, swapped axes): the complete input buffer, strides, metadata and every array/Quantity argument are snapshotted before and "
+            "compared after each call, on every path including those that raise; a replaced element must be provably equal for all sample values.",
+            "One call from an arbitrary input (sequences by induction); N = 2..4; Dask helpers on Dask data and readers are outside."),
+    "C20": ("Dispatch: with the fourteen scipy.fft functions replaced by distinct uninterpreted functions, pulsarbat.fft.<name> returns exactly "
+            "U_name applied to the unchanged arguments for six argument patterns with symbolic n/axis, unknown names raise AttributeError. "
+            "STFT/ISTFT on symbolic samples: every sub-channel value is the stated DFT bin of its segment, its label is the true frequency, "
+            "sample_rate/nperseg, start time unchanged, and ISTFT(STFT(z)) returns the truncated input with the original metadata and labels.",
+            "That scipy.fft.<name> is the reference DFT is the trusted base; Dask branch is C09; nperseg in {1,2,3,4}, nchan in {1,2,3}."),
+})
+
 NOT_APPLICABLE = {
     "C09": "Dask equivalence quantifies over chunk layouts, schedulers and laziness; the deciding code is Dask's graph construction and "
            "schedulers, which cannot run on solver terms (object-dtype dask arrays refuse np.exp; threads/processes cannot carry z3 terms) - "
